@@ -124,6 +124,10 @@ CORPUS = [
     {"u": "http://1.2.3.4", "vs": ["http://a.1.2.3.4", "http://1.2.3.4/x", "http://1.2.3.4:80"], "sa": False},
     {"u": "http://localhost", "vs": ["http://a.localhost", "http://localhost/x", "http://LOCALHOST/x"], "sa": False},
     {"u": "http://[::1]", "vs": ["http://[::1]/x", "http://[::1]:80/x", "http://a.[::1]"], "sa": False},
+    # FX-C12-df640b6: a bracketed literal whose text ends with a public suffix is one stem, suffix-aware or not
+    {"u": "http://[v1.a.com]", "vs": ["http://[v1.a.com]/x", "http://[v1.a.com]:80/x", "http://[v1.A.com]/x", "http://a.com/x", "http://[::1%a.co.uk]/x"], "sa": True},
+    {"u": "http://[::1%a.co.uk]", "vs": ["http://[::1%a.co.uk]/x?q#f", "http://[::1%A.CO.UK]/x", "http://co.uk/x", "http://[::1%a.co.uk]"], "sa": True},
+    {"u": "http://[::1%a.co.uk]", "vs": ["http://[::1%a.co.uk]/x?q#f", "http://[::1%A.CO.UK]/x", "http://co.uk/x", "http://[::1%a.co.uk]"], "sa": False},
     # userinfo (the forward law is not demanded for u with userinfo; v may have some)
     {"u": "http://me@a.com", "vs": ["http://me@a.com/x", "http://me@a.com", "http://a.com/x"], "sa": False},
     {"u": "http://a.com", "vs": ["http://me@a.com/x", "http://me:pw@www.a.com", "http://:pw@a.com#f"], "sa": False},
@@ -352,8 +356,17 @@ def impl(case):
     return [out]
 
 
-def split_law_ok(pr):
+def host_split(pr):
+    """the public-suffix split of the host as far as the LRU is concerned (Lean: hostSplit): a
+    bracketed IP literal has none, whatever split_suffix finds at the end of its text"""
     A, split = pr
+    if spec_host_port(A[1])[0].startswith("["):
+        return None
+    return split
+
+
+def split_law_ok(pr):
+    A, split = pr[0], host_split(pr)
     if split is None:
         return True
     d, s = split
@@ -399,7 +412,7 @@ def pair_verdict(case, v):
     hu, hv = spec_host_port(A[1])[0], spec_host_port(V[1])[0]
     # forward
     if under_by(ident, A, V) and (hu == hv or (label_host(hu) and label_host(hv))):
-        if sa and not same_suffix_split(spu, spv):
+        if sa and not same_suffix_split(host_split(pu), host_split(pv)):
             if case.get("strict") and not pre:
                 return "forward: %s lies under %s but stems %r are not a prefix of %r %s" % (v, case["u"], cu, cv, KF_MARK)
         elif not pre:
@@ -458,7 +471,7 @@ def _pair_stats_(case):
                 st["strict-under"] += 1
             if spec_host_port(A[1])[0] != spec_host_port(V[1])[0]:
                 st["subdomain"] += 1
-            if case["sa"] and not same_suffix_split(spu, spv):
+            if case["sa"] and not same_suffix_split(host_split(pu), host_split(pv)):
                 st["kf"] += 1
         else:
             st["not-under"] += 1
